@@ -290,3 +290,22 @@ for _c in ("C04", "C34"):
 CLAIMS["C32"]["text"] += " The current file and line are set unconditionally for every translated node (LOC-DISCIPLINE)."
 for _c in ("C28", "C24"):
     CLAIMS[_c]["text"] += " Tuple implementation headers of the prelude name each component's type variable once (IMPL-HEADER)."
+
+# ---- third seeding round and the repairs that followed
+for _c in ("C01", "C03"):
+    CLAIMS[_c]["text"] += " The wrapper generated for a builtin used as a function value reloads as many arguments as the builtin's checker type has parameters, and the instruction it lowers to takes that many values (INTRINSIC-ARITY)."
+for _c in ("C04", "C34"):
+    CLAIMS[_c]["text"] += " A table subscripted with a recorded span endpoint goes through a clamp or a range test (SPAN-SUBSCRIPT); a table of the checker's context that is read as partial somewhere is not subscripted elsewhere (MAP-SUBSCRIPT)."
+for _c in ("C03", "C04", "C12"):
+    CLAIMS[_c]["text"] += " A yes/no verdict computed in a loop over several requirements is joined, never overwritten per element (LOOP-VERDICT)."
+for _c in ("C11", "C10", "C15"):
+    CLAIMS[_c]["text"] += " An arm that records a runtime error returns false at once, with no push or store on that path (ERR-STOPS)."
+for _c in ("C14", "C12"):
+    CLAIMS[_c]["text"] += " The set recording which or-alternative was taken outlives the loop that emits one label per alternative, in the comparison pass and in the binding pass (OR-DECISIONS)."
+for _c in ("C05", "C02"):
+    CLAIMS[_c]["text"] += " The assembler passes register operands to the VM instruction in the order of the assembly instruction (ASM-TOTAL)."
+for _c in ("C03", "C01"):
+    CLAIMS[_c]["text"] += " Every non-error path of the expression checker reconciles the node's type with the expected type (ANA-ON-SUCCESS), and a name that resolves to a declaration without a value is reported rather than left untyped (DECL-VALUE)."
+for _c in ("C01", "C12"):
+    CLAIMS[_c]["text"] += " Patterns that bind without testing (`let`, `for`) are handed to the usefulness analysis (BINDING-PAT-TOTAL)."
+CLAIMS["C21"]["text"] += " Every statement nested in an expression or statement is resolved in a scope created inside that construct; alternative branches do not share one (SCOPE)."
